@@ -175,23 +175,34 @@ Record fstub := FStub {
   fs_strip : list string;        (* strip_modules *)
   fs_async : bool }.
 
-(* str.replace(pat, ""): leftmost, non-overlapping *)
-Fixpoint replace_go (pat : string) (plen skip : nat) (s : string) : string :=
+(* re.sub(r"(?<![\w.])(?:m1|m2|...)\.", "", s), alternatives longest first: a module prefix is removed where it starts a
+   dotted name (the character before it is neither a word character nor a dot), the longest listed module winning; the
+   scan resumes after the removed text (whose last character is the dot, so nothing is removed right after it). *)
+Definition is_word_char (c : ascii) : bool :=
+  let n := nat_of_ascii c in
+  (Nat.leb 48 n && Nat.leb n 57) || (Nat.leb 65 n && Nat.leb n 90) || (Nat.leb 97 n && Nat.leb n 122) || Nat.eqb n 95.
+Definition boundary_after (c : ascii) : bool := negb (is_word_char c || Ascii.eqb c "."%char).
+(* length of the longest  m ++ "."  (m in mods) that s starts with; 0 if none *)
+Definition best_prefix (mods : list string) (s : string) : nat :=
+  fold_left (fun best m => let p := (m ++ ".")%string in
+                           if String.prefix p s && Nat.ltb best (String.length p) then String.length p else best)
+            mods 0.
+Fixpoint strip_go (mods : list string) (prev_ok : bool) (skip : nat) (s : string) : string :=
   match s with
   | EmptyString => EmptyString
   | String c r =>
       match skip with
-      | S k => replace_go pat plen k r
-      | O => if String.prefix pat s then replace_go pat plen (plen - 1) r
-             else String c (replace_go pat plen 0 r)
+      | S k => strip_go mods (boundary_after c) k r
+      | O => match (if prev_ok then best_prefix mods s else 0) with
+             | O => String c (strip_go mods (boundary_after c) 0 r)
+             | S k => strip_go mods (boundary_after c) k r
+             end
       end
   end.
-Definition remove_all (pat s : string) : string :=
-  match pat with EmptyString => s | _ => replace_go pat (String.length pat) 0 s end.
-Definition strip_text (mods : list string) (a : string) : string :=
-  fold_left (fun s m => remove_all (m ++ ".")%string s) mods a.
-(* `s.replace(module + ".", "")` runs over the whole line; a module name is a dotted identifier, so a match
-   ends in a "." preceded by an identifier character, which occurs only inside annotations *)
+(* The substitution runs over the whole line.  Outside annotations a name is never followed by "." (the "..." of a
+   default or of the body follows a space), so only annotation texts change; an annotation always follows ": " or
+   "-> ", i.e. starts at a boundary. *)
+Definition strip_text (mods : list string) (a : string) : string := strip_go mods true 0 a.
 Definition strip_tok (mods : list string) (t : token) : token :=
   match t with TAnno a => TAnno (strip_text mods a) | _ => t end.
 
